@@ -9,7 +9,7 @@ import (
 	"verif/vkit"
 )
 
-const rule = "histories of 1-4 runs over persistent stores (memory objects kept across runs, a SQLite file reopened for every run or - a third of the SQLite cases - one :memory: SQLite store kept across the runs, a durable-streams server with a separate subscription store): each run builds a new bus on wrapper stores, calls SubscribeWithReplay for ids A, B (type T1) and C (type T2), publishes T1/T2/T3 events - also from inside the replay callback and from inside the store's LoadOffset call of a running SubscribeWithReplay - and ends cleanly, with a crash before/after the c-th store operation of the run (every Append, Read, stream row, SaveOffset, LoadOffset is a crash point), or with one store operation failing; streaming or paged replay with batch sizes 1-3 or default; a final clean run subscribes every id. Oracle per subscription: every persisted event of its type is delivered (no loss), first deliveries follow log order, nothing is delivered twice within a run, an event is delivered again only if its position had not been saved when that run began, no repeats at all without crash or fault; saved offsets were issued by the store and never move backwards. Non-trivial = >=1 restart with a crash or fault."
+const rule = "histories of 1-4 runs over persistent stores (memory objects kept across runs, a SQLite file reopened for every run or - a third of the SQLite cases - one :memory: SQLite store kept across the runs, a durable-streams server with a separate subscription store): each run builds a new bus on wrapper stores, calls SubscribeWithReplay for ids A, B (type T1) and C (type T2), publishes T1/T2/T3 events - also from inside the replay callback and from inside the store's LoadOffset call of a running SubscribeWithReplay - and ends cleanly, with a crash before/after the c-th store operation of the run (every Append, Read, stream row, SaveOffset, LoadOffset is a crash point), or with one store operation failing, or (SQLite file store) with a driver error on the k-th row fetch of the run; streaming or paged replay with batch sizes 1-3 or default; a final clean run subscribes every id. Oracle per subscription: every persisted event of its type is delivered (no loss), first deliveries follow log order, nothing is delivered twice within a run, an event is delivered again only if its position had not been saved when that run began, no repeats at all without crash or fault; saved offsets were issued by the store and never move backwards. Non-trivial = >=1 restart with a crash or fault."
 
 var collMem = vkit.NewCollector("C12", "TestResumeMemory", rule)
 var collSQL = vkit.NewCollector("C12", "TestResumeSQLite", rule)
